@@ -37,6 +37,10 @@ def run(ctx):
     ctx.do(rule_encoders)
     ctx.do(rule_decoder_plain)
     ctx.do(rule_decoder_gets_the_text_as_given)
+    # a member of a container comes back as what parse() made of it -- not as some other object the library happens to hold
+    # for the same id (C03's clause on the container cleaners is a necessary condition of "the parsed object equals the original")
+    from . import C03 as _C03
+    ctx.do_as(_C03.rule_container_dispatch, {"C03.container-dispatch": "C01.custom-content-round-trip"})
     ctx.do(rule_defaulted)
     ctx.do(rule_order_and_precision)
     ctx.do(rule_inner_written_by_constructor)
